@@ -101,6 +101,9 @@ void sim_sched_get_stats(sim_sched_stats* st);
 /** decisions taken in this run (for the replay file) */
 uint32_t sim_sched_decisions(const uint64_t** steps, const int** tasks);
 int sim_current_task(void);
+/** every decision is also streamed to this fd as it is taken ("B" = a new scheduling phase begins, "D from local next"),
+ *  so that a run ending in a fault still leaves its explicit schedule behind */
+void sim_set_decision_fd(int fd);
 
 // ------------------------------------------------------------------ faults -> result channel
 /** context the signal handler needs; the harness keeps it current */
